@@ -73,6 +73,28 @@ class C03(Prop):
             req = [x for x in rng.sample(names[:8], rng.randint(0, 6)) if x not in prov]
             big.append({'op': 'portsel.match', 'cfg': {'psts': sel(), 'pmts': sel(), 'rsts': sel(), 'rmts': sel()}, 'prov': prov, 'req': req})
         yield 'sampled', big
+        # the predefined configurations (all_mts, all_sts, …): the real helper against the explicit selection
+        # its documentation states
+        NONE, ALL = {'w': 'none'}, {'w': 'all'}
+        helpers = []
+        for _ in range(200 if tier == 'quick' else scale(5000)):
+            prov = rng.sample(names[:8], rng.randint(0, 4))
+            req = [x for x in rng.sample(names[:8], rng.randint(0, 5)) if x not in prov]
+            def rsel():
+                r = rng.random()
+                if r < 0.45 or not req:
+                    return {'w': rng.choice(['all', 'none', 'remaining'])}
+                return {'names': rng.sample(req + ['zz'], rng.randint(1, len(req)))}
+            a, b = rsel(), rsel()
+            h = rng.choice(['all_mts', 'all_sts', 'all_sts_all_mts', 'all_mts_all_sts', 'all_mts_mixed_ts', 'all_sts_mixed_ts'])
+            cfg = {'all_mts': {'psts': NONE, 'pmts': ALL, 'rsts': NONE, 'rmts': ALL},
+                   'all_sts': {'psts': ALL, 'pmts': NONE, 'rsts': ALL, 'rmts': NONE},
+                   'all_sts_all_mts': {'psts': ALL, 'pmts': NONE, 'rsts': NONE, 'rmts': ALL},
+                   'all_mts_all_sts': {'psts': NONE, 'pmts': ALL, 'rsts': ALL, 'rmts': NONE},
+                   'all_mts_mixed_ts': {'psts': NONE, 'pmts': ALL, 'rsts': a, 'rmts': b},
+                   'all_sts_mixed_ts': {'psts': ALL, 'pmts': NONE, 'rsts': a, 'rmts': b}}[h]
+            helpers.append({'op': 'portsel.match', 'helper': h, 'cfg': cfg, 'prov': prov, 'req': req})
+        yield 'predefined-configurations', helpers
         yield 'through-build', self.build_stream(rng, tier)
 
     def build_stream(self, rng, tier):
@@ -117,7 +139,15 @@ class C03(Prop):
             return G.build_impl(case)
         use_repo_src()
         try:
-            cfg = mk_portscfg(case['cfg'])
+            if case.get('helper'):
+                import dznpy.adv_shell as A
+                h = case['helper']
+                if h.endswith('mixed_ts'):
+                    cfg = getattr(A, h)(mk_select(case['cfg']['rsts']), mk_select(case['cfg']['rmts']))
+                else:
+                    cfg = getattr(A, h)()
+            else:
+                cfg = mk_portscfg(case['cfg'])
             m = cfg.match(set(case['prov']), set(case['req']))
         except Exception as e:  # noqa
             return {'err': err_tag(e)}
